@@ -55,19 +55,24 @@ type hookEvent struct {
 	name string
 }
 
+// The recorder has its own mutex: the hook runs inside the registry's critical
+// section, but lookups and listings may legitimately share that section with each
+// other (a readers/writer lock), so the registry's lock is not relied upon here.
+// A sequence number is still a valid linearization stamp: it is taken while the
+// operation holds its lock, and a registration excludes everything else.
 type regRecorder struct {
-	seq    int         // written only inside the registry's critical section
-	events []hookEvent // idem
+	seq    int
+	events []hookEvent
 	hold   map[int]chan struct{}
 	held   chan int
-	mu     sync.Mutex // protects hold only (set up before the operations run)
+	mu     sync.Mutex
 }
 
 func (r *regRecorder) hook(ev, name string) {
-	r.seq++
 	g := goid()
-	r.events = append(r.events, hookEvent{r.seq, g, ev, name})
 	r.mu.Lock()
+	r.seq++
+	r.events = append(r.events, hookEvent{r.seq, g, ev, name})
 	ch := r.hold[g]
 	r.mu.Unlock()
 	if ch != nil {
@@ -117,13 +122,20 @@ func runRegistryMode(in *os.File, out *bufio.Writer) {
 	for _, n := range decoration.RegisteredDecorationNames() {
 		init = append(init, []interface{}{n, decID(decoration.Named(n))})
 	}
+	rec.mu.Lock()
 	rec.events = nil
+	rec.mu.Unlock()
 	writeLine(out, M{"ev": "init", "names": init})
 
 	// flush: pair the hook events (in seq order) with the calls of each goroutine
 	flush := func(scen string, calls map[int][]regCall) {
 		next := map[int]int{}
-		for _, e := range rec.events {
+		rec.mu.Lock()
+		evs := rec.events
+		rec.events = nil
+		rec.mu.Unlock()
+		sort.Slice(evs, func(i, j int) bool { return evs[i].seq < evs[j].seq })
+		for _, e := range evs {
 			cs := calls[e.gid]
 			k := next[e.gid]
 			if k >= len(cs) {
@@ -152,7 +164,6 @@ func runRegistryMode(in *os.File, out *bufio.Writer) {
 				writeLine(out, M{"ev": "nohook", "scen": scen, "g": g, "missing": len(cs) - next[g]})
 			}
 		}
-		rec.events = nil
 	}
 
 	sc := bufio.NewScanner(in)
@@ -307,7 +318,9 @@ func runRegistryMode(in *os.File, out *bufio.Writer) {
 					close(release)
 					<-aDone
 					<-bDone
-					writeLine(out, M{"ev": "probe", "scen": scen, "a": aop["op"], "b": bop["op"], "blocked": blocked})
+					// a registration excludes every other operation; two reads may overlap
+					must := b2i(aop["op"] == "register" || bop["op"] == "register")
+					writeLine(out, M{"ev": "probe", "scen": scen, "a": aop["op"], "b": bop["op"], "blocked": blocked, "must": must})
 					flush(scen, calls)
 				}
 			}
